@@ -163,3 +163,71 @@ _old_register = register
 def register(OPS, drv):  # noqa: F811
     _old_register(OPS, drv)
     register_more(OPS, drv)
+
+
+def register_faults(OPS, drv):
+    import builtins
+    import errno
+    import os
+    import resource
+    import pygopherd.handlers.base as hbase
+
+    def op_world_faults(job):
+        """Like op 'world', with injected I/O faults and an optional descriptor limit.
+        faults: {"listdir": {name: errno_name}, "open": {name: errno_name}} — the fault hits any path whose
+        last component equals name.  The wrappers live in the harness, not in the repository."""
+        w = drv.World(job)
+        faults = job.get("faults", {})
+        orig_listdir = os.listdir
+        orig_open = builtins.open
+
+        def last(p):
+            p = os.fsdecode(p) if isinstance(p, (bytes, str)) else ""
+            return p.rstrip("/").rsplit("/", 1)[-1]
+
+        def f_listdir(path="."):
+            e = faults.get("listdir", {}).get(last(path))
+            if e:
+                code = getattr(errno, e)
+                raise OSError(code, os.strerror(code), os.fsdecode(path))
+            return orig_listdir(path)
+
+        def f_open(path, *a, **k):
+            if not isinstance(path, int):
+                e = faults.get("open", {}).get(last(path))
+                if e:
+                    code = getattr(errno, e)
+                    raise OSError(code, os.strerror(code), os.fsdecode(path))
+            return orig_open(path, *a, **k)
+
+        old_limit = None
+        try:
+            os.listdir = f_listdir
+            hbase.open = f_open          # VFS_Real.open resolves `open` in its module first
+            if job.get("nofile"):
+                old_limit = resource.getrlimit(resource.RLIMIT_NOFILE)
+                base = len(orig_listdir("/proc/self/fd"))
+                resource.setrlimit(resource.RLIMIT_NOFILE, (base + int(job["nofile"]), old_limit[1]))
+            res = []
+            for r in job["requests"]:
+                res.append(drv.serve_once(w.config, drv.s2b(r["data"]), tls=r.get("tls", False)))
+            return {"root": w.root, "results": res}
+        finally:
+            os.listdir = orig_listdir
+            try:
+                del hbase.open
+            except AttributeError:
+                pass
+            if old_limit is not None:
+                resource.setrlimit(resource.RLIMIT_NOFILE, old_limit)
+            w.close()
+
+    OPS["world_faults"] = op_world_faults
+
+
+_old_register2 = register
+
+
+def register(OPS, drv):  # noqa: F811
+    _old_register2(OPS, drv)
+    register_faults(OPS, drv)
